@@ -197,18 +197,29 @@ def read_container(b, co):
         # 512-bit hash of the SRK data) followed by the SRK data block of the selected key
         t = s + sb["srk_off"]
         arr = {"version": b[t], "length": u(b, t + 1, 2), "tag": b[t + 3], "count": b[t + 4], "tables": []}
+        aq = q + sb["srk_off"]
+        c["regions"] += [(aq, aq + 4, "srk.array.header"), (aq + 4, aq + 5, "srk.array.count"), (aq + 5, aq + 8, "srk.array.reserved")]
         o = t + 8
         for _ in range(min(arr["count"], 2)):
             tab = {"tag": b[o], "length": u(b, o + 1, 2), "version": b[o + 3], "records": [], "bytes": b[o:o + u(b, o + 1, 2)]}
             ro = o + 4
+            c["regions"] += [(o - co, o - co + 1, "srk.tag"), (o - co + 1, o - co + 3, "srk.length"), (o - co + 3, o - co + 4, "srk.version")]
             for _ in range(4):
                 ln = u(b, ro + 1, 2)
                 tab["records"].append({"tag": b[ro], "length": ln, "alg": b[ro + 3], "hash": b[ro + 4], "ksize": b[ro + 5],
                                        "flags": b[ro + 7], "l1": u(b, ro + 8, 2), "l2": u(b, ro + 10, 2), "data_hash": b[ro + 12:ro + 76]})
+                rr = ro - co
+                c["regions"] += [(rr, rr + 1, "srk.rec.tag"), (rr + 1, rr + 3, "srk.rec.length"), (rr + 3, rr + 4, "srk.rec.alg"),
+                                 (rr + 4, rr + 5, "srk.rec.hash"), (rr + 5, rr + 6, "srk.rec.keysize"), (rr + 6, rr + 7, "srk.rec.reserved"),
+                                 (rr + 7, rr + 8, "srk.rec.flags"), (rr + 8, rr + 12, "srk.rec.param_lengths"),
+                                 (rr + 12, rr + max(ln, 12), "srk.rec.data_hash")]
                 ro += max(ln, 12)
             o += tab["length"]
             dl = u(b, o + 1, 2)
             tab["srk_data"] = {"version": b[o], "length": dl, "tag": b[o + 3], "srk_id": b[o + 4], "key": b[o + 8:o + dl], "bytes": b[o:o + dl]}
+            dd = o - co
+            c["regions"] += [(dd, dd + 4, "srk.data.header"), (dd + 4, dd + 5, "srk.data.srk_id"), (dd + 5, dd + 8, "srk.data.reserved"),
+                             (dd + 8, dd + max(dl, 8), "srk.data.key")]
             o += dl
             arr["tables"].append(tab)
         c["srk_array"] = arr
@@ -424,6 +435,8 @@ def oracle(case, res, keys, fam_info, consts):
                 label = region_of(rck, idx - a)
                 if label == "hdr.flags" and idx - a == 4 and bit < 2:
                     label = f"hdr.flags(srk_set->{(rck['flags'] & 3) ^ (1 << bit)})"      # the authentication selector itself
+                elif label == "hdr.flags" and idx - a == 4 and bit in (4, 5):
+                    label = "hdr.flags(used_srk_id)"
         if outcome.startswith("crash"):
             bad.append((f"tamper-crash:{outcome}:{label}", f"flipping bit {bit} of byte {hex(idx)} ({label}) crashes parse()/verify(): {outcome}"))
         elif outcome == "silent":
